@@ -18,12 +18,24 @@ CHECK = {'level': 'exploration',
          'critical section, after the lookup) until another requester of that node is about to take resMu (call about to start / timer fired), + 0.1-1.5 ms, cap 80 ms. '
          'Non-trivial there = at least 8 requests overlapped AND at least one late reply took the unknown-ID branch while other requests of the same node were in flight '
          '(schedule-point/log events, not clocks). After every storm: pending tables empty, then one fresh request per node (1 s timeout) must be served. '
+         'Dimension "requests indistinguishable by content" of every class (workload incl. stalled-peer, storm; about 2 of 3 generated cases): 1-3 groups of 2-4 calls that send the '
+         'same procedure with a byte-identical payload, released together by a gate (never in the last 150 ms of a wall-clock second, so all of them are created within one '
+         'second; gate cap 300 ms) on different workers: (a) one requester to two or three different responder hosts (a fourth node is the third host), (b) one requester 2-4 times '
+         'to the same host, (c) requesters/hosts drawn freely; responders answer with a token naming the message ID served, THEMSELVES and the number of the handler invocation, '
+         'alternately slow (T/4..T/2, storm T/3..2T/3, stalled-peer T/8..T/4: inside the timeout) and fast (<= 2 ms), one storm group in four with a first attempt answered after '
+         'the timeout; the payload-diverse calls of the class run in the same case. Oracle there: what a call returns was produced by ITS target (token node = addressed node = '
+         'Response.PeerID) for one of ITS OWN message IDs (IDs its goroutine passed after-send with; handler run recorded for that ID at that node), no response instance returned by two calls; '
+         'no reply dropped as "unknown request ID" while more requests with that ID are outstanding (after-send passed, timer not fired, not cancelled) than responses with that ID found a pending entry '
+         '(checked for every call of every class, ordered through resMu, no clocks); handler runs per (group, requester, responder) <= calls x (retries+1) and = calls when no timer fired and nothing '
+         'was cancelled; pending tables empty. Directed form in every tier (TestRegressIdenticalConcurrentRequests: to three peers / three times to one peer / both mixed, T 400 ms, slow 120 ms). '
          'Watchdog for every case of every class: a request that does not end is a VIOLATION when three goroutine dumps (>= 300 ms and >= 40 process heartbeats apart, '
          'after >= 4 s and >= 400 heartbeats without any event) show the same goroutines of the case\'s cluster waiting for a mutex inside pkg/p2p below a MessageProtocol '
          'method, or an outstanding requester parked in the select of sendRequestMessage; or, with nothing recognisable parked, when calls are outstanding and no event '
          'happened for 30 s (10 s after the first such hit) while the process ran for >= 2000 heartbeats (callers\' stacks reported).',
  'level_text': 'Generated concurrent request/response workloads between real libp2p hosts with hook-ordered races; every call must return its own '
-               'token or an error, hook-ordered replies must not be dropped, handler runs <= retries+1 per call, no pending entry after quiescence, no '
+               'token or an error - also when several concurrent calls are identical in procedure and payload (same request to 2-3 peers / repeated to one peer within one second: '
+               'the response must come from the addressed peer for the call\'s own message ID) -, hook-ordered replies must not be dropped, no reply dropped as unknown while its request is '
+               'outstanding, handler runs <= retries+1 per call, no pending entry after quiescence, no '
                'goroutine parked in onResponse (goroutine dump), no goroutine of the layer waiting for a mutex or parked in its select beyond the timeout '
                '(three goroutine dumps), a fresh request is served after a late-response storm. Schedules are steered at three points and at the unknown-ID '
                'log line, not enumerated; the Go scheduler is not owned.',
@@ -42,6 +54,11 @@ CHECK = {'level': 'exploration',
                  'resMu critical section (no engine hook there); if the line moves, late replies are still produced but no longer held (label storm:late-replies-held-... drops to 0)',
                  'blocked-layer evidence reads goroutine states and frames from runtime.Stack (sync.Mutex.Lock / sync.RWMutex.RLock / sync.RWMutex.Lock / semacquire, '
                  'first frame outside sync/runtime in lisk-engine/pkg/p2p, receiver pointer of this case\'s MessageProtocol); a layer that blocks in another shape is caught by the 30 s no-progress rule',
+                 'identical-payload groups: "created within one wall-clock second" is arranged by the release gate and confirmed per group from the wall clock at the gate and at the '
+                 'after-send points (label identical-payload:groups-all-first-attempts-within-one-wall-clock-second); a group that straddles a second boundary or whose members did not overlap '
+                 '(machine overloaded, gate cap) only loses sensitivity for defects that depend on it, nothing is asserted from it',
+                 'the handler cannot tell identical requests of one requester to one host apart: latency/error flag are taken from those calls in arrival order, attribution of runs to calls goes '
+                 'through message IDs (a message ID used by one request only); message IDs are not required to be unique - a shared ID is reported only as a note inside a violation',
                  'liveness probe: a fresh fast request that fails 3 times (12 attempts of 1 s) counts only if no process heartbeat was late meanwhile'],
  'quick': [{'pkg': 'c17', 'checks': 60, 'timeout': 1800, 'shrinktime': '6s', 'env': {'VERIF_C17_STORM': 40}}],
  'thorough': [{'pkg': 'c17', 'checks': 800, 'shards': 12, 'timeout': 2400, 'gomaxprocs': 4, 'shrinktime': '6s', 'env': {'VERIF_C17_STORM': 200}},
